@@ -141,7 +141,41 @@ fn main() {
             break;
         }
         i += 1;
-        let (int, frac, exp, tag) = if i % 16 == 5 {
+        let (int, frac, exp, tag) = if i % 16 == 9 || i % 16 == 13 {
+            // an input a hair from a rounding boundary (so that the moderate stage declines and the big-integer
+            // path runs), valid (13) or with 1..3 bytes corrupted (9): garbage that reaches deep code
+            let fmt = if rng.chance(2, 3) { mlverif::oracle::F64 } else { mlverif::oracle::F32 };
+            let mut r2 = rng.fork(rng.next());
+            let mut c = mlverif::gen::g1(&mut r2, fmt);
+            if c.ndigits() > 1200 {
+                c = mlverif::gen::Case::new(b"9007199254740993", b"00000000000000000000000000001", 0, "x");
+            }
+            if i % 16 == 9 {
+                for _ in 0..rng.range(1, 3) {
+                    let n = c.int.len() + c.frac.len();
+                    if n == 0 {
+                        break;
+                    }
+                    let pos = if rng.chance(1, 3) { 0 } else { rng.below(n as u64) as usize };
+                    let b = match rng.below(6) {
+                        0 => b':',
+                        1 => b'/',
+                        2 => 0xff,
+                        3 => 0x00,
+                        4 => b':' + rng.below(20) as u8,
+                        _ => rng.next() as u8,
+                    };
+                    if pos < c.int.len() {
+                        c.int[pos] = b;
+                    } else {
+                        c.frac[pos - c.int.len()] = b;
+                    }
+                }
+                (c.int, c.frac, c.exp, "near_halfway_corrupted")
+            } else {
+                (c.int, c.frac, c.exp, "near_halfway_valid")
+            }
+        } else if i % 16 == 5 {
             // zero significands: empty or all '0' (valid as a fraction; a precondition violation as an integer), any exponent
             let z = |rng: &Rng| -> Vec<u8> { vec![b'0'; *rng.pick(&[0usize, 0, 1, 2, 5, 18, 19, 20, 40])] };
             let e = match rng.below(4) {
